@@ -195,6 +195,44 @@ def listings(ctx):
             ctx.case(('convert', mk), True, 'convert-basis')
             if got[0] != 'ok' or open(out).read() != open(ref).read():
                 ctx.violation('cli.convert-basis', 'file', 'convert-basis %s writes something else than convert_formatted_basis_file' % extra, {'kind': 'cli', 'argv': ['convert-basis'] + extra})
+        # explicit --in-fmt / --out-fmt, in any letter case, including names only the readers know (genbas = the CFOUR text)
+        texts = {}
+        for fmt in ('nwchem', 'cfour', 'turbomole', 'gaussian94'):
+            texts[fmt] = os.path.join(d, 'src_' + fmt + '.txt')
+            with open(texts[fmt], 'w') as f:
+                f.write(bse.get_basis('6-31g', elements=[1, 6, 8], fmt=fmt, header=False))
+        pairs = [('nwchem', 'nwchem', 'gaussian94'), ('nwchem', 'NWChem', 'Psi4'), ('turbomole', 'turbomole', 'nwchem'), ('cfour', 'cfour', 'nwchem'),
+                 ('cfour', 'genbas', 'nwchem'), ('cfour', 'GenBas', 'gaussian94'), ('gaussian94', 'gaussian94', 'molpro'), ('nwchem', 'nosuchformat', 'nwchem'),
+                 ('nwchem', 'nwchem', 'nosuchformat'), ('nwchem', 'genbas', 'nwchem')]
+        for i, (which, in_fmt, out_fmt) in enumerate(pairs):
+            out, ref = os.path.join(d, 'cv_cli_%d' % i), os.path.join(d, 'cv_api_%d' % i)
+            argv = ['convert-basis', texts[which], out, '--in-fmt', in_fmt, '--out-fmt', out_fmt]
+            got = run_cli(argv)
+            want = impl.call(convert.convert_formatted_basis_file, texts[which], ref, in_fmt, out_fmt)
+            ctx.case(('convert-fmt', which, in_fmt, out_fmt), True, 'convert-basis:explicit-formats')
+            rp = {'kind': 'cli', 'argv': ['convert-basis', which, '--in-fmt', in_fmt, '--out-fmt', out_fmt]}
+            if (got[0] == 'ok') != (want[0] == 'ok'):
+                ctx.violation('cli.convert-basis', 'outcome:formats', 'convert-basis --in-fmt %s --out-fmt %s: command line %s, convert_formatted_basis_file %s'
+                              % (in_fmt, out_fmt, got[0], want[0]), rp)
+            elif got[0] == 'ok' and open(out).read() != open(ref).read():
+                ctx.violation('cli.convert-basis', 'file:formats', 'convert-basis --in-fmt %s --out-fmt %s writes something else than convert_formatted_basis_file' % (in_fmt, out_fmt), rp)
+        for sub, f in (('autoaux-basis', manip.autoaux_basis), ('autoabs-basis', manip.autoabs_basis)):
+            for which, in_fmt in (('nwchem', 'nwchem'), ('cfour', 'genbas'), ('cfour', 'CFOUR')):
+                out = os.path.join(d, sub + in_fmt + '.out')
+                argv = [sub, texts[which], out, '--in-fmt', in_fmt, '--out-fmt', 'nwchem']
+                got = run_cli(argv)
+                b = impl.call(readers.read_formatted_basis_file, texts[which], in_fmt)
+                want = b
+                if b[0] == 'ok':
+                    b[1]['revision_description'] = ''
+                    b[1]['version'] = ''
+                    want = impl.call(lambda x: writers.write_formatted_basis_str(f(x), 'nwchem'), b[1])
+                ctx.case((sub, in_fmt), True, sub + ':explicit-formats')
+                rp = {'kind': 'cli', 'argv': [sub, which, '--in-fmt', in_fmt, '--out-fmt', 'nwchem']}
+                if (got[0] == 'ok') != (want[0] == 'ok'):
+                    ctx.violation('cli.' + sub, 'outcome:formats', '%s --in-fmt %s: command line %s, library call %s' % (sub, in_fmt, got[0], want[0]), rp)
+                elif got[0] == 'ok' and open(out).read() != want[1]:
+                    ctx.violation('cli.' + sub, 'file:formats', '%s --in-fmt %s writes something else than the library call' % (sub, in_fmt), rp)
         for sub, f in (('autoaux-basis', manip.autoaux_basis), ('autoabs-basis', manip.autoabs_basis)):
             out = os.path.join(d, sub + '.nw')
             got = run_cli([sub, src, out])
